@@ -23,6 +23,18 @@ theorem isZero_iff (x : ℝ) : isZero x = true ↔ x = 0 := by
 theorem isZero_false {x : ℝ} (h : x ≠ 0) : isZero x = false := by
   rw [Bool.eq_false_iff]; intro h0; exact h ((isZero_iff _).1 h0)
 
+/-- over the reals the current code (with the projections of fix ef5a368) is the old formula, for every axis -/
+theorem lineInfiniteCylinder_eq_old (a b n : V3 ℝ) (r : ℝ) :
+    lineInfiniteCylinder a b r n = lineInfiniteCylinderOld a b r n := by
+  have h0 : V3.dot (V3.cross n a) a = 0 := by simp only [V3.dot, V3.cross]; ring
+  have h1 : V3.sub (V3.cross n a) (V3.smul (V3.dot (V3.cross n a) a) a) = V3.cross n a := by
+    rw [h0]; simp only [V3.sub, V3.smul, V3.cross]; congr 1 <;> ring
+  have h2 : V3.dot (V3.sub b (V3.smul (V3.dot b a) a)) (V3.cross n a) = V3.dot b (V3.cross n a) := by
+    simp only [V3.dot, V3.sub, V3.smul, V3.cross]; ring
+  have h3 : V3.cross (V3.sub b (V3.smul (V3.dot b a) a)) a = V3.cross b a := by
+    simp only [V3.dot, V3.sub, V3.smul, V3.cross, V3.mk.injEq]; refine ⟨?_, ?_, ?_⟩ <;> ring
+  simp only [lineInfiniteCylinder, lineInfiniteCylinderOld, h1, h2, h3]
+
 theorem maxW_eq (x y : ℝ) : maxW x y = max x y := by
   simp only [maxW]; split_ifs with h
   · exact (max_eq_left h).symm
@@ -116,7 +128,7 @@ theorem lineSlab_right (a b n : V3 ℝ) (h : ℝ) (hn : V3.dot n a ≠ 0) : ∃ 
 
 theorem lineCyl_right (a b n : V3 ℝ) (r : ℝ) (hq : V3.dot (V3.cross n a) (V3.cross n a) ≠ 0) :
     ∃ x, (lineInfiniteCylinder a b r n).right = some x := by
-  simp only [lineInfiniteCylinder, isZero_false hq, Bool.false_eq_true, if_false]; exact ⟨_, rfl⟩
+  simp only [lineInfiniteCylinder_eq_old, lineInfiniteCylinderOld, isZero_false hq, Bool.false_eq_true, if_false]; exact ⟨_, rfl⟩
 
 theorem lagrange (u v : V3 ℝ) :
     V3.dot (V3.cross u v) (V3.cross u v) + V3.dot u v ^ 2 = V3.dot u u * V3.dot v v := by
@@ -204,7 +216,7 @@ theorem cyl_other_end (a b n : V3 ℝ) (r h : ℝ) (ha : V3.dot a a = 1) :
     · linear_combination (-h * a.x) * ha
     · linear_combination (-h * a.y) * ha
     · linear_combination (-h * a.z) * ha
-  simp only [lineInfiniteCylinder, h1, h2, h3, h4]
+  simp only [lineInfiniteCylinder_eq_old, lineInfiniteCylinderOld, h1, h2, h3, h4]
 
 theorem decide_congr {p q : Prop} [Decidable p] [Decidable q] (h : p ↔ q) : decide p = decide q := by
   simp only [h]
@@ -271,7 +283,7 @@ theorem cyl_congr (a b n a' b' n' : V3 ℝ) (r : ℝ)
     rw [binet, binet, hnb, haa, hna, hab]
   have h4 : V3.norm (V3.sub b' (V3.smul (V3.dot b' a') a')) = V3.norm (V3.sub b (V3.smul (V3.dot b a) a)) := by
     simp only [V3.norm]; rw [perp_sq, perp_sq, hbb, hba, haa]
-  simp only [lineInfiniteCylinder, h1, h2, h3, h4]
+  simp only [lineInfiniteCylinder_eq_old, lineInfiniteCylinderOld, h1, h2, h3, h4]
 
 theorem slab_congr (a b n a' b' n' : V3 ℝ) (h : ℝ)
     (hna : V3.dot n' a' = V3.dot n a) (hba : V3.dot b' a' = V3.dot b a) :
